@@ -150,6 +150,29 @@ class SObj:
         return 'SObj(%s)' % self.label
 
 
+class SCond:
+    """cond ? a : b for arbitrary typed values (e.g. an optional attribute:
+    present ? value : None).  a / b may be zero-argument thunks, evaluated
+    only once the condition is known on the path."""
+    __slots__ = ('cond', '_a', '_b')
+
+    def __init__(self, cond, a, b):
+        self.cond = cond
+        self._a = a
+        self._b = b
+
+    @property
+    def a(self):       # thunks are re-evaluated on every access (their facts live in the current scope only)
+        return self._a() if callable(self._a) else self._a
+
+    @property
+    def b(self):
+        return self._b() if callable(self._b) else self._b
+
+    def __repr__(self):
+        return 'SCond(%s ? .. : ..)' % (self.cond,)
+
+
 class SExc:
     """An exception instance bound by ``except X as name``."""
 
@@ -158,7 +181,7 @@ class SExc:
         self.args = args
 
 
-SYMBOLIC_TYPES = (SInt, SBool, SBytes, SStr, SFloat, SOpaque, SObj, SExc)
+SYMBOLIC_TYPES = (SInt, SBool, SBytes, SStr, SFloat, SOpaque, SObj, SExc, SCond)
 
 
 def is_symbolic(v, _depth=0):
@@ -258,6 +281,9 @@ class State:
         self.counter = itertools.count()
         self.refine = {}          # chunk id -> list of segments (its expansion)
         self.refined_chunks = {}  # chunk id -> Chunk
+        self.cond_defs = {}       # chunk id -> (cond term, thunk -> segs when true)  [empty when false]
+        self.cond_seen = {}       # chunk id -> len(pc) at the last undetermined check
+        self.decided = {}         # id of a decided condition term -> its value on this path
         self.keep = []            # keep z3 terms alive (ids are reused otherwise)
         self.pack_cache = {}
         self.str_lits = {}
@@ -339,6 +365,8 @@ class State:
                 raise Infeasible()
         self.decisions.append(Decision(val, forced, tag))
         self.assume(cond if val else z3.Not(cond))
+        self.decided[cond.get_id()] = val
+        self.keep.append(cond)
         return val
 
     def truth(self, v, tag='truth'):
@@ -355,7 +383,10 @@ class State:
         if isinstance(v, SObj):
             ln = getattr(v.cls, '__len__', None)
             if ln is not None:
-                raise OutOfSubset('truthiness of object with __len__')
+                hook = getattr(self, 'len_hook', None)
+                if hook is None:
+                    raise OutOfSubset('truthiness of object with __len__')
+                return self.truth(hook(v), tag)      # bool(obj) is len(obj) != 0
             return True
         if isinstance(v, SOpaque):
             if v.kind in ('datetime_naive', 'datetime_aware', 'struct_time', 'foreign'):
@@ -394,16 +425,88 @@ class State:
         raise EngineError('not bytes: %r' % (v,))
 
     def expand(self, segs):
-        """Replace refined chunks by their expansions (recursively)."""
+        """Replace refined chunks by their expansions (recursively); conditional
+        chunks are resolved as soon as the path decides their condition."""
         out = []
         stack = list(reversed(segs))
         while stack:
             s = stack.pop()
+            if isinstance(s, Chunk) and s.key() not in self.refine and s.key() in self.cond_defs:
+                self.try_resolve(s)
             if isinstance(s, Chunk) and s.key() in self.refine:
                 stack.extend(reversed(self.refine[s.key()]))
             else:
                 out.append(s)
         return out
+
+    # -- conditional chunks: present ? <definition> : empty
+    def cond_chunk(self, term, cond, thunk):
+        """The chunk `term` is the octets thunk() when cond holds and empty otherwise."""
+        c = self.new_chunk(term=term)
+        if c.key() not in self.cond_defs and c.key() not in self.refine:
+            if isinstance(cond, bool):
+                self.refine_chunk(c, list(self.to_rope(thunk()).segs) if cond else [])
+            else:
+                self.cond_defs[c.key()] = (cond, thunk)
+                self.assume(z3.Implies(z3.Not(cond), c.len == 0))
+        return c
+
+    def known(self, cond):
+        """Truth of cond from the decisions taken on this path, without the solver (None: unknown)."""
+        cond = z3.simplify(cond)
+        if z3.is_true(cond):
+            return True
+        if z3.is_false(cond):
+            return False
+        v = self.decided.get(cond.get_id())
+        if v is not None:
+            return v
+        if z3.is_not(cond):
+            v = self.known(cond.arg(0))
+            return None if v is None else not v
+        if z3.is_and(cond):
+            vals = [self.known(ch) for ch in cond.children()]
+            if any(x is False for x in vals):
+                return False
+            if all(x is True for x in vals):
+                return True
+        if z3.is_or(cond):
+            vals = [self.known(ch) for ch in cond.children()]
+            if any(x is True for x in vals):
+                return True
+            if all(x is False for x in vals):
+                return False
+        return None
+
+    def try_resolve(self, chunk, force=False, solver=False):
+        """Refine a conditional chunk if its condition is decided.  Default: only from
+        the decisions recorded on the path; solver=True: ask the solver; force=True: branch."""
+        k = chunk.key()
+        if k in self.refine or k not in self.cond_defs:
+            return k in self.refine
+        cond, thunk = self.cond_defs[k]
+        val = self.known(cond)
+        if val is None and (solver or force):
+            if self.cond_seen.get(k) != len(self.pc) or force:
+                if self.must(cond):
+                    val = True
+                elif self.must(z3.Not(cond)):
+                    val = False
+                else:
+                    self.cond_seen[k] = len(self.pc)
+        if val is None and force:
+            val = self.branch(cond, 'resolve-conditional-chunk')
+        if val is None:
+            return False
+        self.refine_chunk(chunk, list(self.to_rope(thunk()).segs) if val else [])
+        return True
+
+    def resolve_all(self, segs):
+        """expand, asking the solver about still undetermined conditional chunks."""
+        for s_ in self.expand(segs):
+            if isinstance(s_, Chunk) and s_.key() in self.cond_defs and s_.key() not in self.refine:
+                self.try_resolve(s_, solver=True)
+        return self.expand(segs)
 
     def seg_len(self, s):
         return s.len if isinstance(s, Chunk) else 1
@@ -512,6 +615,10 @@ class State:
                 return left, segs[i:]
             if isinstance(s, Chunk):
                 if self.branch(pos_t < off + s.len, tag + ':inside-chunk'):
+                    if s.key() in self.cond_defs and s.key() not in self.refine:
+                        self.try_resolve(s, force=True)
+                        segs = segs[:i] + self.expand([s]) + segs[i + 1:]
+                        continue
                     k = z3.simplify(pos_t - off)
                     if z3.is_int_value(k) and k.as_long() <= 64:
                         bs, rest = self.split_first_bytes(s, k.as_long())
@@ -597,6 +704,10 @@ class State:
         # drop empty chunks in front, then take one byte
         while right:
             s = right[0]
+            if isinstance(s, Chunk) and s.key() in self.cond_defs and s.key() not in self.refine:
+                self.try_resolve(s, force=True)
+                right = self.expand([s]) + right[1:]
+                continue
             if isinstance(s, Chunk):
                 if self.branch(s.len == 0, tag + ':empty-chunk'):
                     right = right[1:]
@@ -620,6 +731,10 @@ class State:
             if i >= len(segs):
                 raise EngineError('take_bytes: rope shorter than promised')
             s = segs[i]
+            if isinstance(s, Chunk) and s.key() in self.cond_defs and s.key() not in self.refine:
+                self.try_resolve(s, force=True)
+                segs = segs[:i] + self.expand([s]) + segs[i + 1:]
+                continue
             if isinstance(s, Chunk):
                 need = k - len(out)
                 # how many bytes does this chunk surely have?
@@ -646,8 +761,8 @@ class State:
     def rope_eq(self, a, b):
         """Returns (z3 Bool, exact).  exact=False: shapes did not align, the
         term is only a necessary condition (length equality)."""
-        sa = self.expand(self.to_rope(a).segs)
-        sb = self.expand(self.to_rope(b).segs)
+        sa = self.resolve_all(self.to_rope(a).segs)
+        sb = self.resolve_all(self.to_rope(b).segs)
 
         def same(x, y):
             if isinstance(x, Chunk) or isinstance(y, Chunk):
